@@ -126,7 +126,13 @@ def statements(body):
                 res.append((head, statements(body[k + 1:e])))
                 i = e + 1
             else:
-                e = body.index(";", k)
+                e = k
+                while body[e] != ";":
+                    if body[e] in "\"'":
+                        q = body[e]; e += 1
+                        while body[e] != q:
+                            e += 2 if body[e] == "\\" else 1
+                    e += 1
                 res.append((head, statements(body[k:e + 1])))
                 i = e + 1
         else:
@@ -206,6 +212,14 @@ def toolinfo_atom(e, types):
     m = re.match(r"^\(mSettings\.severity\.isEnabled\(Severity::(\w+)\) \? ('.'|'\\.') : ' '\)$", e)
     if m:
         return [("sevFlag", m.group(1), char_lit(m.group(2)))]
+    m = re.match(r"^\(mSettings\.(certainty|checks)\.isEnabled\((Certainty|Checks)::(\w+)\) \? ('.'|'\\.') : ' '\)$", e)
+    if m and (m.group(1), m.group(2)) in (("certainty", "Certainty"), ("checks", "Checks")):
+        return [("groupFlag", m.group(1), m.group(3), char_lit(m.group(4)))]
+    m = re.match(r"^mSettings\.(\w+)\.(\w+)\(\)$", e)
+    if m:
+        if (m.group(1), m.group(2)) not in (("standards", "getC"), ("standards", "getCPP"), ("platform", "toString")):
+            raise Unrecognised("call streamed into toolinfo: " + e)
+        return [("callField", m.group(1), m.group(2))]
     m = re.match(r"^\(mSettings\.(\w+) \? ('.'|'\\.') : ' '\)$", e)
     if m:
         if types.get(m.group(1)) != "bool":
@@ -245,6 +259,14 @@ def translate_toolinfo(repo):
     for s in st[1:-1]:
         if isinstance(s, tuple):
             head, inner = s
+            m = re.match(r"^for \(const std::string &(\w+) : mSettings\.(\w+)\)$", head)
+            if m:
+                t = types.get(m.group(2), "")
+                mm = len(inner) == 1 and isinstance(inner[0], str) and re.match(r"^toolinfo << %s << ('.'|'\\.')$" % m.group(1), inner[0])
+                if not mm or not re.match(r"^std::(set|vector|list)<std::string>$", t):
+                    raise Unrecognised("string collection loop: %s { %r } over a member of type %r" % (head, inner, t))
+                items.append(("strSetField", m.group(2), char_lit(mm.group(1))))
+                continue
             if head != "for (const auto &a : mSettings.addonInfos)":
                 raise Unrecognised("block: " + head)
             fields = []
@@ -358,6 +380,12 @@ def lean_item(t):
         return ".%s %s" % (k, lean_str(t[1]))
     if k == "addonInfos":
         return ".addonInfos [%s]" % ", ".join(lean_str(f) for f in t[1])
+    if k == "groupFlag":
+        return ".groupFlag %s %s (%s)" % (lean_str(t[1]), lean_str(t[2]), lean_char(t[3]))
+    if k == "strSetField":
+        return ".strSetField %s (%s)" % (lean_str(t[1]), lean_char(t[2]))
+    if k == "callField":
+        return ".callField %s %s" % (lean_str(t[1]), lean_str(t[2]))
     if k == "lit":
         return ".lit (%s)" % lean_char(t[1])
     return "." + k
@@ -441,9 +469,9 @@ def parse_toks(f, i):
 def parse_k(line):
     """harness `k` line -> dict(hash, dump, main, headers) (strings stay hex)"""
     f = line.split(" ")
-    if f[0] != "k" or f[3] != "M":
+    if f[0] != "k" or f[3] != "O" or f[7] != "M":
         raise core.CheckBroken("C18 harness line: " + line[:200])
-    main, i = parse_toks(f, 4)
+    main, i = parse_toks(f, 8)
     if f[i] != "H":
         raise core.CheckBroken("C18 harness line (H): " + line[:200])
     nh = int(f[i + 1]); i += 2
@@ -451,7 +479,7 @@ def parse_k(line):
     for _ in range(nh):
         name = f[i]; toks, i = parse_toks(f, i + 1)
         hdrs.append((name, toks))
-    return dict(hash=f[1], dump=f[2], main=main, headers=hdrs)
+    return dict(hash=f[1], dump=f[2], stdc=f[4], stdcpp=f[5], platform=f[6], main=main, headers=hdrs)
 
 
 def files_wire(main, hdrs):
@@ -495,10 +523,18 @@ def key_cases(ctx, res, exe, drv, n):
         addons = [(rng.choice(["misra", "y2038.py", "a b"]), rng.choice(["", "--x", "--rule-texts=f"])) for _ in range(rng.choice([0, 0, 1, 2]))]
         supps = rng.sample(SUPPS, rng.choice([0, 0, 1, 2]))
         rmc, inl = rng.choice("01"), rng.choice("01")
+        # options that are not part of the key at the pinned commit (they must then not move the hash)
+        flags = [rng.choice("01") for _ in range(3)]
+        undefs = rng.sample(["A", "B", "X1"], rng.choice([0, 0, 1, 2]))
+        std = rng.choice(["", "", "c89", "c11", "c++11", "c++20"])
+        plat = rng.choice([1, 1, 2, 4, 5, 6])
+        libs = rng.sample(["posix", "gnu", "qt"], rng.choice([0, 0, 1, 2]))
         op = ["K", core.hx(d), core.hx(main), rmc, inl, sev, core.hx(ud), cc, force, str(maxcfg), str(level), core.hx(prod), core.hx(prem),
               str(len(addons))] + [core.hx(x) for a in addons for x in a] + [str(len(supps))] + [core.hx(x) for x in supps]
+        op += flags + [str(len(undefs))] + [core.hx(x) for x in undefs] + [core.hx(std), str(plat), str(len(libs))] + [core.hx(x) for x in libs]
         kops.append(" ".join(op))
-        metas.append(dict(main=main, sev=sev, ud=ud, cc=cc, force=force, maxcfg=maxcfg, level=level, prod=prod, prem=prem, addons=addons))
+        metas.append(dict(main=main, sev=sev, ud=ud, cc=cc, force=force, maxcfg=maxcfg, level=level, prod=prod, prem=prem, addons=addons,
+                          flags=flags, undefs=sorted(undefs), libs=libs))
     rc, kout, err = core.run_lines([exe, root], [], kops, timeout=600)
     if len(kout) != len(kops):
         raise core.CheckBroken("C18 harness produced %d lines for %d ops (rc=%s): %s" % (len(kout), len(kops), rc, err[-500:]))
@@ -507,7 +543,9 @@ def key_cases(ctx, res, exe, drv, n):
         k = parse_k(o)
         parsed.append(k)
         pops.append(" ".join(["pre", core.hx(m["main"]), version, core.hx(m["prod"]), m["sev"], m["cc"], m["force"], str(m["maxcfg"]), str(m["level"]),
-                              core.hx(m["ud"]), core.hx(m["prem"]), str(len(m["addons"]))] + [core.hx(x) for a in m["addons"] for x in a] + [k["dump"]])
+                              core.hx(m["ud"]), core.hx(m["prem"]), str(len(m["addons"]))] + [core.hx(x) for a in m["addons"] for x in a] + [k["dump"]]
+                             + ["X"] + m["flags"] + [k["stdc"], k["stdcpp"], k["platform"], str(len(m["undefs"]))] + [core.hx(x) for x in m["undefs"]]
+                             + [str(len(m["libs"]))] + [core.hx(x) for x in m["libs"]])
                     + " " + files_wire(k["main"], k["headers"]))
     rc, pout, err = core.run_lines(drv, [], pops, timeout=600)
     if len(pout) != len(pops):
@@ -678,7 +716,7 @@ def finish_histories(ctx, exe, drv, hists):
         rc_f, fr, _, other = cppcheck(ctx, r["snap"], r["files"])
         r["fresh"], r["rc_f"] = fr, rc_f
         r["other"] += other
-    with ThreadPoolExecutor(max_workers=2) as ex:
+    with ThreadPoolExecutor(max_workers=3) as ex:
         list(ex.map(fresh, todo))
     kops = ["K %s %s 1 1 00000 - 0 0 0 2 - - 0 0" % (core.hx(r["snap"]), core.hx(f)) for r in todo for f in r["files"]]
     rc, kout, err = core.run_lines([exe, ctx.tmp], [], kops, timeout=900)
@@ -779,6 +817,7 @@ def judge_history(ctx, res, trees, jobs, runs, tag, origin):
     """P_impl + decision correspondence for one finished history.  Returns (known keys seen, ops, impl, model)."""
     seen = set()
     ops, impl, model = [], [], []
+    tainted = False     # two workers wrote one cache file in an earlier run: the content of the build directory is not determined
     for k, r in enumerate(runs):
         if r is None:
             continue
@@ -787,8 +826,11 @@ def judge_history(ctx, res, trees, jobs, runs, tag, origin):
         canon_m = " ".join("%s=%s:%s" % (f, r["model"][f][0], r["model"][f][1]) for f in r["files"])
         racy = r["jobs"] > 1 and len(set(v[0] for v in r["model"].values())) < len(r["files"])
         op = "%s run %d -j%d %s" % (tag, k, r["jobs"], hashlib.sha1(json.dumps(trees[:k + 1], sort_keys=True).encode()).hexdigest()[:10])
-        if not racy:            # two workers writing one cache file: the order is not determined
+        tainted = tainted or racy
+        if not tainted:         # two workers writing one cache file: the order is not determined
             ops.append(op); impl.append(canon_i); model.append(canon_m)
+        else:
+            res.count("decisions-not-compared:racy-shared-cache-file")
         res.count("hist:" + origin)
         res.count("jobs:%d" % r["jobs"])
         for f in r["files"]:
@@ -983,7 +1025,9 @@ def cli_histories(ctx, res, exe, drv, n, nruns):
             for part in k.split("+"):
                 res.count("edit:" + part)
         todo.append(("h%d" % h, "generated", trees, jobs, None))
-    hists = [(trees, cached_phase(ctx, trees, jobs, tag)) for (tag, origin, trees, jobs, c) in todo]
+    from concurrent.futures import ThreadPoolExecutor
+    with ThreadPoolExecutor(max_workers=3) as ex:      # histories are independent of each other (own directories)
+        hists = list(ex.map(lambda t: (t[2], cached_phase(ctx, t[2], t[3], t[0])), todo))
     finish_histories(ctx, exe, drv, hists)
     all_ops, all_impl, all_model = [], [], []
     for (tag, origin, trees, jobs, c), (_, runs) in zip(todo, hists):
@@ -1035,6 +1079,6 @@ def run(ctx, res):
     T["key"] = round(time.time() - t, 1); t = time.time()
     mapping_cases(ctx, res, exe, drv, 300 if thorough else 80)
     T["mapping"] = round(time.time() - t, 1); t = time.time()
-    cli_histories(ctx, res, exe, drv, 60 if thorough else 6, 7 if thorough else 4)
+    cli_histories(ctx, res, exe, drv, 60 if thorough else 5, 7 if thorough else 4)
     T["cli"] = round(time.time() - t, 1)
     res.extra["timings_s"] = T
